@@ -237,6 +237,13 @@ exit:
 	// line directives (matching the compiler). Remove any
 	// other '\r' afterwards (matching the pre-existing be-
 	// havior of the scanner).
+	if lit[0] == '#' {
+		// # - style comment: never a line directive (and may be a single byte)
+		if numCR > 0 {
+			lit = stripCR(lit, false)
+		}
+		return string(lit)
+	}
 	if numCR > 0 && len(lit) >= 2 && lit[1] == '/' && lit[len(lit)-1] == '\r' {
 		lit = lit[:len(lit)-1]
 		numCR--
